@@ -20,7 +20,7 @@
                               frame -> KeepKeys(current set), forward if non-empty }
      cesium/db.go             DB.Close: cancels the relay; frames left in the inlet are
                               never delivered; writers keep pushing into the dead inlet.
-   Ghost fields (st_hist, f_orig, f_unauth, i_sub, s_seen, s_everpaused) record history
+   Ghost fields (st_hist, f_orig, f_unauth, s_everpaused, s_inbox) record history
    for the theorems; they do not influence any step.
    No proofs in this file. *)
 From stdpp Require Import base list numbers.
@@ -55,8 +55,7 @@ Global Instance frame_eq_dec : EqDecision frame. Proof. solve_decision. Defined.
 
 Record item := Item {
   i_w : N; i_seq : N;
-  i_keys : list N;          (* keys of the frame handed to the consumer *)
-  i_sub : list N            (* ghost: the streamer's key set when it filtered the frame *)
+  i_keys : list N           (* keys of the frame handed to the consumer *)
 }.
 Global Instance item_eq_dec : EqDecision item. Proof. solve_decision. Defined.
 
@@ -67,12 +66,14 @@ Record streamer := Streamer {
   s_closing : bool;              (* its inlet has been closed *)
   s_ready : bool;                (* consumer drains the outlet *)
   s_everpaused : bool;           (* ghost: consumer was not ready at some point *)
-  s_inbox : list item;           (* ghost: what the consumer received, in order *)
-  s_seen : list frame            (* ghost: frames the relay dequeued while connected *)
+  s_inbox : list item            (* ghost: what the consumer received, in order *)
 }.
 Global Instance streamer_eq_dec : EqDecision streamer. Proof. solve_decision. Defined.
 
 Record state := State {
+  st_unowned : bool;                 (* true = behaviour of the pinned upstream tree: a series for a
+                                        channel the writer never opened is relayed; false = /repo
+                                        after the fix: it is held back *)
   st_chans : list (N * ckind);
   st_cap : nat;                      (* relay inlet capacity (BufferSize) *)
   st_writers : list (N * writer);    (* open writers *)
@@ -84,8 +85,59 @@ Record state := State {
 }.
 Global Instance state_eq_dec : EqDecision state. Proof. solve_decision. Defined.
 
-Definition init (chans : list (N * ckind)) (cap : nat) : state :=
-  State chans cap [] 0 [] [] false [].
+Definition init_gen (unowned : bool) (chans : list (N * ckind)) (cap : nat) : state :=
+  State unowned chans cap [] 0 [] [] false [].
+Definition init := init_gen false.
+
+(* boolean equality, cheap under vm_compute: [andb]/[existsb] evaluate both arguments under
+   call-by-value, so conjunctions are written with [if] (lazy) and the most discriminating
+   fields come first *)
+Notation "a &&& b" := (if a then b else false) (at level 40, left associativity).
+Fixpoint list_eqb {A} (e : A -> A -> bool) (a b : list A) : bool :=
+  match a, b with
+  | [], [] => true
+  | x :: a', y :: b' => e x y &&& list_eqb e a' b'
+  | _, _ => false
+  end.
+Definition keys_eqb : list N -> list N -> bool := list_eqb N.eqb.
+Definition wmode_eqb (a b : wmode) : bool :=
+  match a, b with PS, PS | SO, SO | PO, PO => true | _, _ => false end.
+Definition ckind_eqb (a b : ckind) : bool :=
+  match a, b with KV, KV | KI, KI => true | KD i, KD j => i =? j | _, _ => false end.
+Definition frame_eqb (a b : frame) : bool :=
+  (f_w a =? f_w b) &&& (f_seq a =? f_seq b) &&& keys_eqb (f_keys a) (f_keys b) &&&
+  keys_eqb (f_orig a) (f_orig b) &&& keys_eqb (f_unauth a) (f_unauth b).
+Definition item_eqb (a b : item) : bool :=
+  (i_w a =? i_w b) &&& (i_seq a =? i_seq b) &&& keys_eqb (i_keys a) (i_keys b).
+Definition streamer_eqb (a b : streamer) : bool :=
+  Bool.eqb (s_conn a) (s_conn b) &&& (length (s_inbox a) =? length (s_inbox b))%nat &&&
+  keys_eqb (s_keys a) (s_keys b) &&&
+  list_eqb keys_eqb (s_pend a) (s_pend b) &&&
+  Bool.eqb (s_closing a) (s_closing b) &&& Bool.eqb (s_ready a) (s_ready b) &&&
+  Bool.eqb (s_everpaused a) (s_everpaused b) &&&
+  list_eqb item_eqb (s_inbox a) (s_inbox b).
+Definition writer_eqb (a b : writer) : bool :=
+  Bool.eqb (w_open a) (w_open b) &&& wmode_eqb (w_mode a) (w_mode b) &&&
+  list_eqb (fun x y => (x.1 =? y.1) &&& (x.2 =? y.2)) (w_chans a) (w_chans b) &&&
+  (w_pos a =? w_pos b) &&& (w_seq a =? w_seq b).
+Definition state_eqb (a b : state) : bool :=
+  (length (st_fifo a) =? length (st_fifo b))%nat &&&
+  list_eqb (fun x y => (x.1 =? y.1) &&& streamer_eqb x.2 y.2) (st_strs a) (st_strs b) &&&
+  list_eqb frame_eqb (st_fifo a) (st_fifo b) &&& Bool.eqb (st_closed a) (st_closed b) &&&
+  list_eqb (fun x y => (x.1 =? y.1) &&& writer_eqb x.2 y.2) (st_writers a) (st_writers b) &&&
+  (st_npos a =? st_npos b) &&& (st_cap a =? st_cap b)%nat &&& Bool.eqb (st_unowned a) (st_unowned b) &&&
+  list_eqb (fun x y => (x.1 =? y.1) &&& ckind_eqb x.2 y.2) (st_chans a) (st_chans b) &&&
+  list_eqb frame_eqb (st_hist a) (st_hist b).
+Fixpoint inb (st : state) (sts : list state) : bool :=
+  match sts with
+  | [] => false
+  | x :: r => if state_eqb st x then true else inb st r
+  end.
+Fixpoint dedup (sts : list state) : list state :=
+  match sts with
+  | [] => []
+  | x :: r => if inb x r then dedup r else x :: dedup r
+  end.
 
 (* ---- association lists *)
 Fixpoint alookup {A} (k : N) (l : list (N * A)) : option A :=
@@ -111,11 +163,11 @@ Fixpoint nodupN (l : list N) : bool :=
 
 (* ---- record updates *)
 Definition set_writers (st : state) (ws : list (N * writer)) : state :=
-  State (st_chans st) (st_cap st) ws (st_npos st) (st_fifo st) (st_strs st) (st_closed st) (st_hist st).
+  State (st_unowned st) (st_chans st) (st_cap st) ws (st_npos st) (st_fifo st) (st_strs st) (st_closed st) (st_hist st).
 Definition set_strs (st : state) (ss : list (N * streamer)) : state :=
-  State (st_chans st) (st_cap st) (st_writers st) (st_npos st) (st_fifo st) ss (st_closed st) (st_hist st).
+  State (st_unowned st) (st_chans st) (st_cap st) (st_writers st) (st_npos st) (st_fifo st) ss (st_closed st) (st_hist st).
 Definition set_fifo (st : state) (q : list frame) : state :=
-  State (st_chans st) (st_cap st) (st_writers st) (st_npos st) q (st_strs st) (st_closed st) (st_hist st).
+  State (st_unowned st) (st_chans st) (st_cap st) (st_writers st) (st_npos st) q (st_strs st) (st_closed st) (st_hist st).
 Definition upd_str (st : state) (s : N) (f : streamer -> streamer) : state :=
   set_strs st (aupdate s f (st_strs st)).
 
@@ -157,8 +209,11 @@ Definition excluded (st : state) (w : N) (wr : writer) (ks : list N) (k : N) : b
    end).
 Definition unauth_keys (st : state) (w : N) (wr : writer) (ks : list N) : list N :=
   filter (fun k => excluded st w wr ks k) ks.
+(* keys that reach the relay: not excluded, and (after the fix) held by the writer *)
+Definition relayed (st : state) (w : N) (wr : writer) (ks : list N) (k : N) : bool :=
+  negb (excluded st w wr ks k) && (st_unowned st || owned wr k).
 Definition relayed_keys (st : state) (w : N) (wr : writer) (ks : list N) : list N :=
-  filter (fun k => negb (excluded st w wr ks k)) ks.
+  filter (relayed st w wr ks) ks.
 
 Definition group_of (st : state) (k : N) : option N :=
   match kind_of st k with
@@ -234,7 +289,7 @@ Definition bad_hits (st : state) (wr : writer) (ks : list N) (bad : bool) : bool
          | [] => false
          end.
 
-Definition new_streamer (ks : list N) : streamer := Streamer true ks [] false true false [] [].
+Definition new_streamer (ks : list N) : streamer := Streamer true ks [] false true false [].
 
 Definition sync_ready (st : state) : bool :=
   match st_fifo st with [] => true | _ => false end &&
@@ -246,11 +301,8 @@ Definition keep (f : frame) (ks : list N) : list N := filter (fun k => memN k ks
 Definition hand (f : frame) (s : streamer) : streamer :=
   let kk := keep f (s_keys s) in
   Streamer (s_conn s) (s_keys s) (s_pend s) (s_closing s) (s_ready s) (s_everpaused s)
-           (match kk with [] => s_inbox s | _ => s_inbox s ++ [Item (f_w f) (f_seq f) kk (s_keys s)] end)
-           (s_seen s ++ [f]).
-Definition drop (f : frame) (s : streamer) : streamer :=
-  Streamer (s_conn s) (s_keys s) (s_pend s) (s_closing s) (s_ready s) (s_everpaused s)
-           (s_inbox s) (s_seen s ++ [f]).
+           (match kk with [] => s_inbox s | _ => s_inbox s ++ [Item (f_w f) (f_seq f) kk] end).
+Definition drop (f : frame) (s : streamer) : streamer := s.
 
 (* all outcomes of sending f to every connected streamer, in connection order *)
 Fixpoint deliver_all (f : frame) (ss : list (N * streamer)) : list (list (N * streamer)) :=
@@ -281,7 +333,7 @@ Definition vstep (st : state) (o : op) : list state :=
   | OpenW w m chans auths =>
       match alookup w (st_writers st), open_writer_ok st w chans auths with
       | None, Some ca =>
-          [State (st_chans st) (st_cap st) (st_writers st ++ [(w, Writer true m ca (st_npos st) 0)])
+          [State (st_unowned st) (st_chans st) (st_cap st) (st_writers st ++ [(w, Writer true m ca (st_npos st) 0)])
                  (st_npos st + 1) (st_fifo st) (st_strs st) (st_closed st) (st_hist st)]
       | _, _ => [st]
       end
@@ -298,9 +350,12 @@ Definition vstep (st : state) (o : op) : list state :=
           let st1 := set_writers st (aupdate w (fun wr => Writer (w_open wr) (w_mode wr) (w_chans wr) (w_pos wr) seq)
                                              (st_writers st)) in
           if streams (w_mode wr) then
-            if (length (st_fifo st) <? st_cap st)%nat then
+            (* open DB: [st_cap] frames in the inlet buffer plus the one the relay goroutine
+               holds while it sends it to the streamers; closed DB: the buffer only *)
+            if (if st_closed st then (length (st_fifo st) <? st_cap st)%nat
+                else (length (st_fifo st) <=? st_cap st)%nat) then
               let f := Frame w seq (relayed_keys st w wr ks) ks (unauth_keys st w wr ks) in
-              [State (st_chans st1) (st_cap st1) (st_writers st1) (st_npos st1) (st_fifo st1 ++ [f])
+              [State (st_unowned st1) (st_chans st1) (st_cap st1) (st_writers st1) (st_npos st1) (st_fifo st1 ++ [f])
                      (st_strs st1) (st_closed st1) (st_hist st1 ++ [f])]
             else []      (* the send into the full inlet blocks *)
           else [st1]
@@ -315,25 +370,26 @@ Definition vstep (st : state) (o : op) : list state :=
       if st_closed st then [st] else
       [upd_str st s (fun x => if s_closing x then x else
          Streamer (s_conn x) (s_keys x) (s_pend x ++ [ks]) (s_closing x) (s_ready x) (s_everpaused x)
-                  (s_inbox x) (s_seen x))]
+                  (s_inbox x))]
   | CloseS s =>
       if st_closed st then [st] else
       [upd_str st s (fun x =>
-         Streamer (s_conn x) (s_keys x) (s_pend x) true true (s_everpaused x) (s_inbox x) (s_seen x))]
+         Streamer (s_conn x) (s_keys x) (s_pend x) true true (s_everpaused x) (s_inbox x))]
   | Pause s =>
       if st_closed st then [st] else
       [upd_str st s (fun x => if s_closing x then x else
-         Streamer (s_conn x) (s_keys x) (s_pend x) (s_closing x) false true (s_inbox x) (s_seen x))]
+         Streamer (s_conn x) (s_keys x) (s_pend x) (s_closing x) false true (s_inbox x))]
   | Resume s =>
       if st_closed st then [st] else
       [upd_str st s (fun x => if s_closing x then x else
-         Streamer (s_conn x) (s_keys x) (s_pend x) (s_closing x) true (s_everpaused x) (s_inbox x) (s_seen x))]
+         Streamer (s_conn x) (s_keys x) (s_pend x) (s_closing x) true (s_everpaused x) (s_inbox x))]
   | Sync => if st_closed st then [st] else if sync_ready st then [st] else []
   | CloseDB =>
       if st_closed st then [st] else
-      let stc := State (st_chans st) (st_cap st) (st_writers st) (st_npos st) (st_fifo st) (st_strs st)
+      let stc := State (st_unowned st) (st_chans st) (st_cap st) (st_writers st) (st_npos st) (st_fifo st) (st_strs st)
                        true (st_hist st) in
-      stc :: match st_fifo st with
+      (if (length (st_fifo st) <=? st_cap st)%nat then [stc] else []) ++
+             match st_fifo st with
              | [] => []
              | f :: q => map (fun ss => set_fifo (set_strs stc ss) q) (deliver_prefix f (st_strs st))
              end
@@ -350,18 +406,24 @@ Definition deliver_succs (st : state) : list state :=
 Definition apply_req (x : streamer) : streamer :=
   match s_pend x with
   | [] => x
-  | ks :: r => Streamer (s_conn x) ks r (s_closing x) (s_ready x) (s_everpaused x) (s_inbox x) (s_seen x)
+  | ks :: r => Streamer (s_conn x) ks r (s_closing x) (s_ready x) (s_everpaused x) (s_inbox x)
   end.
 Definition can_apply (st : state) (x : streamer) : bool :=
   negb (st_closed st) && s_conn x && match s_pend x with [] => false | _ => true end.
 Definition disconnect (x : streamer) : streamer :=
-  Streamer false (s_keys x) (s_pend x) (s_closing x) (s_ready x) (s_everpaused x) (s_inbox x) (s_seen x).
+  Streamer false (s_keys x) (s_pend x) (s_closing x) (s_ready x) (s_everpaused x) (s_inbox x).
 Definition can_disc (st : state) (x : streamer) : bool :=
   negb (st_closed st) && s_conn x && s_closing x && match s_pend x with [] => true | _ => false end.
 Definition apply_succs (st : state) : list state :=
-  flat_map (fun ss => if can_apply st ss.2 then [upd_str st ss.1 apply_req] else []) (st_strs st).
+  flat_map (fun ss => match alookup ss.1 (st_strs st) with
+                      | Some x => if can_apply st x then [upd_str st ss.1 apply_req] else []
+                      | None => []
+                      end) (st_strs st).
 Definition disc_succs (st : state) : list state :=
-  flat_map (fun ss => if can_disc st ss.2 then [upd_str st ss.1 disconnect] else []) (st_strs st).
+  flat_map (fun ss => match alookup ss.1 (st_strs st) with
+                      | Some x => if can_disc st x then [upd_str st ss.1 disconnect] else []
+                      | None => []
+                      end) (st_strs st).
 Definition hsucc (st : state) : list state := deliver_succs st ++ apply_succs st ++ disc_succs st.
 
 (* the LTS: a step is a hidden step or a visible step labelled by a driver operation *)
@@ -390,10 +452,12 @@ Definition observation : Type := list (N * list obs_item).
 Definition observe (st : state) : observation :=
   map (fun ss => (ss.1, map proj_item (s_inbox ss.2))) (st_strs st).
 
+Definition oitem_eqb (x y : obs_item) : bool :=
+  (x.1.1 =? y.1.1) &&& (x.1.2 =? y.1.2) &&& list_eqb N.eqb x.2 y.2.
 Fixpoint is_prefix (a b : list obs_item) : bool :=
   match a, b with
   | [], _ => true
-  | x :: a', y :: b' => bool_decide (x = y) && is_prefix a' b'
+  | x :: a', y :: b' => oitem_eqb x y &&& is_prefix a' b'
   | _ :: _, [] => false
   end.
 Definition compat (obs : observation) (st : state) : bool :=
@@ -404,24 +468,30 @@ Definition measure (st : state) : nat :=
   (length (st_fifo st) +
    list_sum (map (fun ss => length (s_pend ss.2) + (if s_conn ss.2 then 1 else 0)) (st_strs st)))%nat.
 
-Definition expand (obs : observation) (sts : list state) : list state :=
-  remove_dups (sts ++ filter (compat obs) (flat_map hsucc sts)).
-Fixpoint hclose (fuel : nat) (obs : observation) (sts : list state) : list state :=
+(* breadth-first closure under compatible hidden steps: [seen] includes [frontier], and
+   every compatible hidden successor of a seen state outside the frontier is seen *)
+Fixpoint bfs (fuel : nat) (obs : observation) (seen frontier : list state) : list state :=
   match fuel with
-  | O => sts
-  | S n => hclose n obs (expand obs sts)
+  | O => seen
+  | S n =>
+      let cand := filter (compat obs) (flat_map hsucc frontier) in
+      let new := dedup (filter (fun st => negb (inb st seen)) cand) in
+      bfs n obs (seen ++ new) new
   end.
 Definition max_measure (sts : list state) : nat := fold_right Nat.max O (map measure sts).
 Definition closure (obs : observation) (sts : list state) : list state :=
-  hclose (max_measure sts) obs (remove_dups (filter (compat obs) sts)).
+  let s0 := dedup (filter (compat obs) sts) in
+  bfs (max_measure s0) obs s0 s0.
 
 Definition after_op (obs : observation) (sts : list state) (o : op) : list state :=
   closure obs (flat_map (fun st => vstep st o) sts).
 Definition states_after (chans : list (N * ckind)) (cap : nat) (script : list op)
            (obs : observation) : list state :=
   fold_left (after_op obs) script (closure obs [init chans cap]).
+Definition obs_eqb (a b : observation) : bool :=
+  list_eqb (fun x y => (x.1 =? y.1) &&& list_eqb oitem_eqb x.2 y.2) a b.
 Definition final_ok (obs : observation) (st : state) : bool :=
-  negb (driver_blocked st) && bool_decide (observe st = obs).
+  negb (driver_blocked st) &&& obs_eqb (observe st) obs.
 Definition accepts (chans : list (N * ckind)) (cap : nat) (script : list op)
            (obs : observation) : bool :=
   existsb (final_ok obs) (states_after chans cap script obs).
